@@ -204,7 +204,20 @@ func (rt *pxRt) attach(name string, hn int, deaf ...bool) *pxConn {
 	e := ev("Attach")
 	e.K, e.N = name, hn
 	tr.emit(e)
-	rt.p.AddClient(name, pxProxyEnd{c})
+	// AddClient never waits for anything but the table's lock: if it has not returned once everything else has come to
+	// rest, it never will (a wait on a channel; a wait on the mutex makes synctest.Wait hang and the watchdog report it)
+	done := make(chan struct{})
+	go func() { rt.p.AddClient(name, pxProxyEnd{c}); close(done) }()
+	synctest.Wait()
+	select {
+	case <-done:
+	default:
+		w := ev("Wedged")
+		w.K, w.X = name, "AddClient has not returned"
+		tr.emit(w)
+		tr.emit(ev("End"))
+		os.Exit(3)
+	}
 	return c
 }
 
